@@ -229,11 +229,20 @@ var nameRe = regexp.MustCompile(`^[a-z0-9]+((\.|_|__|-+)[a-z0-9]+)*(/[a-z0-9]+((
 type countingBody struct {
 	io.Reader
 	n *int
+	// left >= 0: the body reports io.EOF together with its last bytes, as a net/http body of
+	// known length does; -1: in a read of its own
+	left int
 }
 
 func (c *countingBody) Read(p []byte) (int, error) {
 	k, err := c.Reader.Read(p)
 	*c.n += k
+	if c.left >= 0 && err == nil {
+		c.left -= k
+		if c.left == 0 && k > 0 {
+			return k, io.EOF
+		}
+	}
 	return k, err
 }
 func (c *countingBody) Close() error { return nil }
@@ -355,7 +364,11 @@ func (s *SimRegistry) RoundTrip(req *http.Request) (*http.Response, error) {
 		resp.Body = http.NoBody
 		resp.ContentLength = sr.length
 	} else {
-		resp.Body = &countingBody{Reader: bytes.NewReader(sr.body), n: cnt}
+		left := -1
+		if n%2 == 0 && len(sr.body) > 0 {
+			left = len(sr.body) // every other answer ends the way a body of known length does
+		}
+		resp.Body = &countingBody{Reader: bytes.NewReader(sr.body), n: cnt, left: left}
 		resp.ContentLength = int64(len(sr.body))
 		if fault == "truncate-body" {
 			resp.ContentLength = sr.length
